@@ -107,7 +107,9 @@ func seqJobList(prop, tier string) []*SeqJob {
 	case "C06":
 		return c06Jobs(tier)
 	case "C04":
-		return append(c04Jobs(tier), tagChainSweep("C04", "size-sweep-tag-chain", tier, false))
+		// (two derivations that end up sharing a scope deliver under tags one of them never had: the program pairs of
+		// C05, all run against one root, are judged here as well)
+		return append(c04Jobs(tier), tagChainSweep("C04", "size-sweep-tag-chain", tier, false), borrow("C04", c05Jobs(tier)[0]))
 	case "C05":
 		return append(c05Jobs(tier), tagChainSweep("C05", "size-sweep-tag-chain", tier, false))
 	case "C10":
